@@ -39,6 +39,7 @@ typedef struct
     int nops;
     uint64_t digest;
     int id;
+    long failat;
 } prog_t;
 
 static prog_t progs[MAX_THREADS];
@@ -98,13 +99,43 @@ typedef struct
     cJSON *slot[SLOTS];
     uint64_t h;
     int pc;
+    long allocs;   /* allocation requests made so far inside core API calls of this program (custom hooks only) */
+    long failat;   /* the request with this number is refused (0: none) */
 } pstate_t;
 
-static void state_init(pstate_t *st)
+/* custom allocation hooks, installed once before any thread starts (as property C20 requires).  They are thread-safe
+ * (plain malloc/free) and refuse the failat-th request a program makes inside core API calls - the calls for which a single
+ * refused request must fail cleanly (C08); utility calls are never faulted (the library does not promise to survive that). */
+static int use_hooks = 0;
+static __thread pstate_t *cur_state = NULL;
+static __thread int in_core = 0;
+
+static void *hook_malloc(size_t n)
+{
+    pstate_t *st = cur_state;
+    if (st != NULL && in_core && st->failat > 0)
+    {
+        st->allocs++;
+        if (st->allocs == st->failat)
+        {
+            return NULL;
+        }
+    }
+    return malloc(n);
+}
+
+static void hook_free(void *p)
+{
+    free(p);
+}
+
+static void state_init(pstate_t *st, long failat)
 {
     memset(st->slot, 0, sizeof(st->slot));
     st->h = 1469598103934665603ULL;
     st->pc = 0;
+    st->allocs = 0;
+    st->failat = failat;
 }
 
 /* executes the next operation of the program; returns 0 when the program has ended */
@@ -117,6 +148,8 @@ static int step_program(const prog_t *p, pstate_t *st)
     {
         return 0;
     }
+    cur_state = st;
+    in_core = (p->ops[i].op != 'U');
     {
         const op_t *o = &p->ops[i];
         int a = (int)(o->a % SLOTS);
@@ -341,6 +374,7 @@ static int step_program(const prog_t *p, pstate_t *st)
                 break;
         }
     }
+    in_core = 0;
     st->h = h;
     st->pc = i + 1;
     return 1;
@@ -350,6 +384,8 @@ static uint64_t finish_program(pstate_t *st)
 {
     int i;
     uint64_t h = st->h;
+    cur_state = st;
+    in_core = 0;
     for (i = 0; i < SLOTS; i++)
     {
         if (st->slot[i] != NULL)
@@ -367,7 +403,7 @@ static uint64_t finish_program(pstate_t *st)
 static uint64_t run_program(const prog_t *p)
 {
     pstate_t st;
-    state_init(&st);
+    state_init(&st, p->failat);
     while (step_program(p, &st))
     {
     }
@@ -387,7 +423,7 @@ static int run_interleaved(unsigned long seed, const uint64_t *solo)
     unsigned long x = seed * 2862933555777941757UL + 3037000493UL;
     for (i = 0; i < nthreads; i++)
     {
-        state_init(&st[i]);
+        state_init(&st[i], progs[i].failat);
         alive[i] = i;
     }
     while (nalive > 0)
@@ -416,6 +452,74 @@ static int run_interleaved(unsigned long seed, const uint64_t *solo)
         }
     }
     return bad;
+}
+
+/* Where does the library keep the documented "position of the last parse error"?  Found by behaviour, not by name: after a
+ * failing parse of buffer B (error at offset k) some word(s) of the program's writable data hold B, B+k (or k next to B); after a
+ * second failing parse of another buffer the same words hold the new values.  Races on exactly those bytes are the ones the
+ * documentation allows; the Python side excuses a report only if its location lies inside a range printed here. */
+extern char __data_start[];
+extern char _end[];
+
+static void probe_words(const char *buf, size_t k, unsigned char *marks, uintptr_t *lo_out, size_t nwords, int first)
+{
+    uintptr_t *w = (uintptr_t *)(((uintptr_t)__data_start + 7u) & ~(uintptr_t)7u);
+    size_t i;
+    (void)lo_out;
+    for (i = 0; i < nwords; i++)
+    {
+        uintptr_t v = w[i];
+        int hit = (v == (uintptr_t)buf) || (v == (uintptr_t)buf + k) || (v == (uintptr_t)k && i > 0 && w[i - 1] == (uintptr_t)buf)
+                  || (v == (uintptr_t)k && i + 1 < nwords && w[i + 1] == (uintptr_t)buf);
+        if (first)
+        {
+            marks[i] = (unsigned char)hit;
+        }
+        else
+        {
+            marks[i] = (unsigned char)(marks[i] && hit);
+        }
+    }
+}
+
+static void locate_error_position(void)
+{
+    static char text1[2048];
+    static char text2[3072];
+    uintptr_t base = ((uintptr_t)__data_start + 7u) & ~(uintptr_t)7u;
+    size_t nwords = ((uintptr_t)_end - base) / sizeof(uintptr_t);
+    unsigned char *marks = (unsigned char *)calloc(nwords + 1, 1);
+    size_t k1 = 1237;
+    size_t k2 = 2011;
+    size_t i;
+    cJSON *t;
+    if (marks == NULL)
+    {
+        return;
+    }
+    /* "[1,1,1,...,1,?" : the parser fails exactly at the '?' */
+    memset(text1, 0, sizeof(text1));
+    memset(text2, 0, sizeof(text2));
+    text1[0] = '[';
+    for (i = 1; i < k1; i += 2) { text1[i] = '1'; text1[i + 1] = ','; }
+    text1[k1] = '?';
+    text2[0] = '[';
+    for (i = 1; i < k2; i += 2) { text2[i] = '2'; text2[i + 1] = ','; }
+    text2[k2] = '?';
+    t = cJSON_ParseWithLength(text1, k1 + 1);
+    cJSON_Delete(t);
+    probe_words(text1, k1, marks, NULL, nwords, 1);
+    t = cJSON_ParseWithLength(text2, k2 + 1);
+    cJSON_Delete(t);
+    probe_words(text2, k2, marks, NULL, nwords, 0);
+    for (i = 0; i < nwords; i++)
+    {
+        if (marks[i])
+        {
+            printf("ERRPOS %llx %llx\n", (unsigned long long)(base + i * sizeof(uintptr_t)), (unsigned long long)(base + (i + 1) * sizeof(uintptr_t)));
+        }
+    }
+    free(marks);
 }
 
 static void *thread_main(void *arg)
@@ -463,6 +567,24 @@ int main(int argc, char **argv)
             free(hex);
             continue;
         }
+        if (sscanf(line, "hooks %d", &use_hooks) == 1)
+        {
+            free(hex);
+            continue;
+        }
+        {
+            int ft;
+            long fk;
+            if (sscanf(line, "failat %d %ld", &ft, &fk) == 2)
+            {
+                if (ft >= 0 && ft < MAX_THREADS)
+                {
+                    progs[ft].failat = fk;
+                }
+                free(hex);
+                continue;
+            }
+        }
         {
             unsigned long sv;
             if (sscanf(line, "schedule %lu", &sv) == 1)
@@ -496,6 +618,13 @@ int main(int argc, char **argv)
     {
         fprintf(stderr, "bad thread count\n");
         return 2;
+    }
+    if (use_hooks)
+    {
+        cJSON_Hooks hooks;
+        hooks.malloc_fn = hook_malloc;
+        hooks.free_fn = hook_free;
+        cJSON_InitHooks(&hooks);
     }
     /* The FIRST concurrent round runs before anything else has touched the library in this process, so that lazily
      * initialised or self-tuning shared state is first used concurrently (a warm-up in the main thread would hide it).
@@ -553,6 +682,7 @@ int main(int argc, char **argv)
     {
         mismatches += run_interleaved(schedules[i], solo);
     }
+    locate_error_position();
     printf("done mismatches=%d\n", mismatches);
     return mismatches ? 3 : 0;
 }
